@@ -168,7 +168,10 @@ func randModule(r *core.RNG, malformed bool) input {
 			case k < 16:
 				d.Action = "err"
 			}
-			if d.Action == "" && r.Chance(25) {
+			if d.Action == "" && r.Chance(12) {
+				d.Action = "quiet"
+			}
+			if (d.Action == "" && r.Chance(25)) || (d.Action == "quiet" && r.Chance(60)) {
 				d.Defers = randDefers(r, dids, 0)
 			}
 		}
@@ -333,6 +336,9 @@ func fixedCases() []input {
 	out = append(out, one("deep", false, on("deep"), nil, []typeDecl{
 		{ID: 1, Name: "A", Kind: "struct", Defers: []deferSpec{{ID: 501, Nested: []deferSpec{{ID: 502}}}, {ID: 503}}},
 		{ID: 2, Name: "B", Kind: "struct", Defers: []deferSpec{{ID: 504}}}, {ID: 3, Name: "C", Kind: "struct", Action: "skip"}}, nil))
+	// the file exists only through what a Defer callback renders; and not at all
+	out = append(out, one("deep", false, on("deep"), nil, []typeDecl{{ID: 1, Name: "A", Kind: "struct", Action: "quiet", Defers: []deferSpec{{ID: 501}}}}, nil))
+	out = append(out, one("deep", false, on("deep"), nil, []typeDecl{{ID: 1, Name: "A", Kind: "struct", Action: "quiet"}, {ID: 2, Name: "B", Kind: "struct", Action: "ignore"}}, nil))
 	// "fal" + "se"
 	out = append(out, one("deep", false, nil, nil, []typeDecl{st(1, "A", []tagLine{tv("gengo:deep", "fal"), tv("gengo:deep", "se")}),
 		st(2, "B", []tagLine{tv("gengo:deep", "false"), tv("gengo:deep", "false")})}, nil))
@@ -411,8 +417,14 @@ func randEnabled(r *core.RNG, malformed bool) input {
 		case 3:
 			in.G = []byte{0xff, 'd'}
 			in.Tags = append(in.Tags, bkv{K: append([]byte("gengo:"), 0xff, 'd', ':', 0x80), Vs: [][]byte{{0xfe}}})
-		case 4:
-			in.Tags = append(in.Tags, bkv{K: []byte("gengo:" + g), Vs: nil})
+		case 4: // a key whose value slice is nil / empty
+			var keep []bkv
+			for _, t := range in.Tags {
+				if string(t.K) != "gengo:"+g {
+					keep = append(keep, t)
+				}
+			}
+			in.Tags = append(keep, bkv{K: []byte("gengo:" + g), Vs: nil})
 		}
 	}
 	return in
@@ -458,9 +470,9 @@ func (prop) Generate(r *core.RNG, tier string) []json.RawMessage {
 	for _, in := range fixedCases() {
 		out = append(out, enc(in))
 	}
-	nMod, nEn := 70, 500
+	nMod, nEn := 150, 600
 	if tier == "thorough" {
-		nMod, nEn = 900, 4000
+		nMod, nEn = 1500, 5000
 	}
 	lat := latticeCases("deep", "deepcopy")
 	if tier == "thorough" {
@@ -469,7 +481,7 @@ func (prop) Generate(r *core.RNG, tier string) []json.RawMessage {
 			out = append(out, enc(in))
 		}
 	} else {
-		for i := 0; i < 10; i++ {
+		for i := 0; i < 16; i++ {
 			out = append(out, enc(lat[r.Intn(len(lat))]))
 		}
 	}
